@@ -42,6 +42,11 @@ def build_tables_campaign(tier, sd):
         add_E(2, 2, 0.3, tl=True)
         add_E(4, 1, 0.05)
         nrand = 2000
+    for desc in families.enum_P():
+        if rnd.random() < (0.1 if tier == "quick" else 1.0):
+            add(families.build_P(desc), "P")
+    for desc in families.enum_H():
+        add(families.build_H(desc), "H")
     rc = families.RandomCharts(sd * 739 + 5)
     n0 = len(cp.charts)
     for _ in range(nrand * 4):
